@@ -385,7 +385,8 @@ pub fn configs(thorough: bool) -> Vec<(BCfg, u32)> {
             max_events: if thorough { 11 } else { 9 },
             max_faults: 2,
         },
-        if thorough { 5 } else { 3 },
+        // 5 was affordable before the preemption deviation; with it level 5 exceeds the 60 M state cap
+        if thorough { 4 } else { 3 },
     ));
     v.push((
         BCfg {
